@@ -721,7 +721,7 @@ void ref_var_cb(int is_write, int cmd, int var, size_t write_size, int result)
         struct refm *r = RM(evt);
         if (is_write) {
                 if ((int)write_size != r->wsize)
-                        VIOL(P_C05 | P_C04 | P_C08, "C05: variable write callback of '%s' var %d told write_size=%zu, reference says %d", W.cmd[cmd].name, var, write_size, r->wsize);
+                        VIOL(P_C05 | P_C04 | P_C08 | P_C20, "C05: variable write callback of '%s' var %d told write_size=%zu, reference says %d", W.cmd[cmd].name, var, write_size, r->wsize);
                 r->cb_pending = 2;
         } else r->cb_pending = 0;
         if (evt) evt_observable();
